@@ -25,7 +25,7 @@ SCALARS = [0, 1, 2, R - 1, R, R + 1, (1 << 255) - 1, 1 << 255, (1 << 256) - 1, 2
 
 def plan(tier, seed):
     q = tier == "quick"
-    return [dict(no=i, idx=i) for i in range(24 if q else 600)]
+    return [dict(no=i, idx=i) for i in range(48 if q else 800)]
 
 
 def run_shard(shard, tier, seed, wd, res):
